@@ -605,12 +605,12 @@ theorem C18_human_part_names_original_addresses
 /-! ## a report IS generated when it can be written -/
 
 /-- Everything the report has to show can be written in the flavour of the failed message:
-the reporting host, the HELO name (if traced), the sender, and the one-level translation of every
-failed recipient; and every last error has a status class (C16 proves
+the reporting host, the sender, and the one-level translation of every failed recipient (NOT the
+HELO name of the client: `Received-From-MTA` is optional and left out when the name cannot be
+converted, `C18_inconvertible_client_name_never_suppresses_report`); and every last error has a status class (C16 proves
 `StoredCoherent (toSMTPErr e)` for the error values maddy builds, which gives class 4 or 5). -/
 structure Presentable (cfg : Cfg) (m : MsgMeta) (failed : List Addr) (now : Addr → Option Err) : Prop where
   host   : cfg.hostname ≠ [] ∧ (cfg.idna.dom m.utf8 cfg.hostname).isSome
-  rcvd   : m.rcvdFrom = [] ∨ (cfg.idna.dom m.utf8 m.rcvdFrom).isSome
   sender : cfg.name m.from_ = [] ∨ (cfg.idna.addr m.utf8 (cfg.name m.from_)).isSome
   rcpts  : ∀ r ∈ failed, cfg.name (translate m r) ≠ [] ∧
              (cfg.idna.addr m.utf8 (cfg.name (translate m r))).isSome
@@ -618,7 +618,6 @@ structure Presentable (cfg : Cfg) (m : MsgMeta) (failed : List Addr) (now : Addr
 
 theorem mtaGroup_ok (ix : Idna) (utf8 : Bool) (m : MtaInfo)
     (h1 : m.reportingMTA ≠ [] ∧ (ix.dom utf8 m.reportingMTA).isSome)
-    (h2 : m.receivedFromMTA = [] ∨ (ix.dom utf8 m.receivedFromMTA).isSome)
     (h3 : m.xSender = [] ∨ (ix.addr utf8 m.xSender).isSome) :
     ∃ g, mtaGroup ix utf8 m = .ok g := by
   unfold mtaGroup
@@ -628,31 +627,15 @@ theorem mtaGroup_ok (ix : Idna) (utf8 : Bool) (m : MtaInfo)
     | cons a t => rfl
   obtain ⟨rm, hrm⟩ := Option.isSome_iff_exists.mp h1.2
   simp only [hne, Bool.false_eq_true, ↓reduceIte, hrm]
-  by_cases hr : m.receivedFromMTA = []
-  · by_cases hs : m.xSender = []
-    · simp [hr, hs]
-    · have : (ix.addr utf8 m.xSender).isSome := by rcases h3 with h | h; exact absurd h hs; exact h
-      obtain ⟨a, ha⟩ := Option.isSome_iff_exists.mp this
-      have hse : m.xSender.isEmpty = false := by
-        cases hx : m.xSender with
-        | nil => exact absurd hx hs
-        | cons _ _ => rfl
-      simp [hr, hse, ha]
-  · have : (ix.dom utf8 m.receivedFromMTA).isSome := by rcases h2 with h | h; exact absurd h hr; exact h
-    obtain ⟨d, hd⟩ := Option.isSome_iff_exists.mp this
-    have hre : m.receivedFromMTA.isEmpty = false := by
-      cases hx : m.receivedFromMTA with
-      | nil => exact absurd hx hr
+  by_cases hs : m.xSender = []
+  · simp [hs]
+  · have : (ix.addr utf8 m.xSender).isSome := by rcases h3 with h | h; exact absurd h hs; exact h
+    obtain ⟨a, ha⟩ := Option.isSome_iff_exists.mp this
+    have hse : m.xSender.isEmpty = false := by
+      cases hx : m.xSender with
+      | nil => exact absurd hx hs
       | cons _ _ => rfl
-    by_cases hs : m.xSender = []
-    · simp [hre, hd, hs]
-    · have : (ix.addr utf8 m.xSender).isSome := by rcases h3 with h | h; exact absurd h hs; exact h
-      obtain ⟨a, ha⟩ := Option.isSome_iff_exists.mp this
-      have hse : m.xSender.isEmpty = false := by
-        cases hx : m.xSender with
-        | nil => exact absurd hx hs
-        | cons _ _ => rfl
-      simp [hre, hd, hse, ha]
+    simp [hse, ha]
 
 theorem rcptGroup_infoOf_ok (cfg : Cfg) (m : MsgMeta) (r : Addr) (se : Reply)
     (h1 : cfg.name (translate m r) ≠ []) (h2 : (cfg.idna.addr m.utf8 (cfg.name (translate m r))).isSome)
@@ -677,15 +660,17 @@ theorem rcptGroups_ok (ix : Idna) (utf8 : Bool) (l : List RcptInfo)
     obtain ⟨gs, hgs⟩ := ih (fun i hi => h i (by simp [hi]))
     exact ⟨g :: gs, by simp [rcptGroups, hg, hgs]⟩
 
-/-- **A report is generated whenever it can be written**: with a bounce pipeline, a non-null
-sender, a non-empty failed set and presentable data, the attempt hands a report to the bounce
-pipeline (no silent "failed to generate fail DSN"). -/
-theorem C18_report_generated_when_presentable
+/-- The report of `C18_report_generated_when_presentable`, with where it comes from. -/
+theorem report_generated_core
     (cfg : Cfg) (maxTries : Nat) (now : Addr → Option Err) (failAt : Option Stage) (q : QMeta)
     (hnd : q.to.Nodup) (hp : cfg.pipeline = true) (hs : q.msg.originalFrom ≠ 0)
     (hf : failedNow maxTries now q ≠ [])
     (hpres : Presentable cfg q.msg (failedNow maxTries now q) now) :
-    ∃ rep, bounces (attempt cfg maxTries now failAt q).2 = handOver (metaNow now q) rep failAt := by
+    ∃ rep, generate cfg.idna (metaNow now q).utf8 (envelope cfg (metaNow now q))
+        (mtaInfo cfg (metaNow now q))
+        ((failedNow maxTries now q).map (fun r => infoOf cfg (metaNow now q) r (storedNow now r)))
+        (metaNow now q).hdr = .ok rep ∧
+      bounces (attempt cfg maxTries now failAt q).2 = handOver (metaNow now q) rep failAt := by
   rw [bounces_attempt cfg maxTries now failAt q hnd]
   have hemp : (failedNow maxTries now q).isEmpty = false := by
     cases hx : failedNow maxTries now q with
@@ -695,7 +680,7 @@ theorem C18_report_generated_when_presentable
   have hspec := rcptInfos_spec cfg (metaNow now q) (failedNow maxTries now q) (storedNow now)
     (metaNow_errs maxTries now q)
   have hm : ∃ g, mtaGroup cfg.idna (metaNow now q).utf8 (mtaInfo cfg (metaNow now q)) = .ok g :=
-    mtaGroup_ok cfg.idna q.msg.utf8 _ hpres.host hpres.rcvd hpres.sender
+    mtaGroup_ok cfg.idna q.msg.utf8 _ hpres.host hpres.sender
   have hr : ∃ gs, rcptGroups cfg.idna (metaNow now q).utf8
       ((failedNow maxTries now q).map (fun r => infoOf cfg (metaNow now q) r (storedNow now r))) = .ok gs := by
     apply rcptGroups_ok
@@ -714,9 +699,22 @@ theorem C18_report_generated_when_presentable
     simp [generate, hmg, hgs]
   obtain ⟨rep, hgen⟩ := hgen
   have ho : (metaNow now q).originalFrom ≠ 0 := hs
-  refine ⟨rep, ?_⟩
+  refine ⟨rep, hgen, ?_⟩
   unfold emitDSN
   simp only [hp, Bool.not_true, Bool.false_eq_true, ↓reduceIte, ho, hspec, hgen]
+
+/-- **A report is generated whenever it can be written**: with a bounce pipeline, a non-null
+sender, a non-empty failed set and presentable data, the attempt hands a report to the bounce
+pipeline (no silent "failed to generate fail DSN").  `Presentable` says nothing about the name the
+client gave in HELO/EHLO: whatever it is, it cannot make the report disappear. -/
+theorem C18_report_generated_when_presentable
+    (cfg : Cfg) (maxTries : Nat) (now : Addr → Option Err) (failAt : Option Stage) (q : QMeta)
+    (hnd : q.to.Nodup) (hp : cfg.pipeline = true) (hs : q.msg.originalFrom ≠ 0)
+    (hf : failedNow maxTries now q ≠ [])
+    (hpres : Presentable cfg q.msg (failedNow maxTries now q) now) :
+    ∃ rep, bounces (attempt cfg maxTries now failAt q).2 = handOver (metaNow now q) rep failAt := by
+  obtain ⟨rep, _, h⟩ := report_generated_core cfg maxTries now failAt q hnd hp hs hf hpres
+  exact ⟨rep, h⟩
 
 
 /-! ## well-formedness (the part that is provable on the abstract report) -/
@@ -888,18 +886,12 @@ theorem C18_non_utf8_message_fields_are_ascii (ix : Idna) (hix : AsciiWhenNotUtf
     | none => simp [hrm] at h8
     | some rm =>
       simp only [hrm] at h8
-      have hR : ∀ (x : Except GenErr (Option Str)) (d : Option Str),
-          (if mta.receivedFromMTA.isEmpty then Except.ok none else
-            match ix.dom false mta.receivedFromMTA with
-            | none => Except.error GenErr.rcvdConv
-            | some d => Except.ok (some d)) = .ok d → ∀ d', d = some d' → isAscii d' := by
-        intro _ d hd d' hd'
-        subst hd'
+      have hR : ∀ d', rcvdField ix false mta.receivedFromMTA = some d' → isAscii d' := by
+        intro d' hd
+        unfold rcvdField at hd
         split at hd
         · simp at hd
-        · cases hx : ix.dom false mta.receivedFromMTA with
-          | none => simp [hx] at hd
-          | some y => simp [hx] at hd; subst hd; exact hix.2 _ _ hx
+        · exact hix.2 _ _ hd
       have hS : ∀ (sv : Option (AddrType × Str)),
           (if mta.xSender.isEmpty then Except.ok none else
             match ix.addr false mta.xSender with
@@ -919,13 +911,10 @@ theorem C18_non_utf8_message_fields_are_ascii (ix : Idna) (hix : AsciiWhenNotUtf
             exact ⟨hix.1 _ _ hx, by rw [← h1]; rfl⟩
       split at h8
       · simp at h8
-      · rename_i rcvd hrc
-        split at h8
-        · simp at h8
-        · rename_i snd hsn
-          have := (Except.ok.inj h8).symm
-          rw [this]
-          exact ⟨hix.2 _ _ hrm, hR (.ok rcvd) rcvd hrc, hS snd hsn⟩
+      · rename_i snd hsn
+        have := (Except.ok.inj h8).symm
+        rw [this]
+        exact ⟨hix.2 _ _ hrm, hR, hS snd hsn⟩
 
 /-- The `Status` class of every listed recipient is 4 or 5 when the stored errors are coherent
 (what C16 proves of `toSMTPErr` for the error values maddy builds). -/
@@ -1431,7 +1420,7 @@ example : (reportsOf (bounces (attempt cexCfg 1 exNow (some .body) exQ).2)).map
 example : failedNow 1 exNow exQ = [2, 4] := by decide
 example : BEv.start 0 0 false false true ∈ bounces (attempt cexCfg 1 exNow (some .commit) exQ).2 := by decide
 example : Presentable cexCfg exQ.msg (failedNow 1 exNow exQ) exNow := by
-  refine ⟨by decide, by decide, by decide, by decide, ?_⟩
+  refine ⟨by decide, by decide, by decide, ?_⟩
   intro r hr e he
   have hr' : r = 2 ∨ r = 4 := by
     have : failedNow 1 exNow exQ = [2, 4] := by decide
@@ -1600,9 +1589,8 @@ theorem mtaGroup_xSender (ix : Idna) (utf8 : Bool) (m : MtaInfo) (g : MtaGroup)
   cases h0 : m.reportingMTA.isEmpty <;> simp only [h0, if_true, Bool.false_eq_true, if_false] at h
   · cases h1 : ix.dom utf8 m.reportingMTA <;> simp only [h1] at h
     · cases h
-    · cases h2 : m.receivedFromMTA.isEmpty <;> cases h3 : m.xSender.isEmpty <;>
-        cases h4 : ix.dom utf8 m.receivedFromMTA <;> cases h5 : ix.addr utf8 m.xSender <;>
-        simp only [h2, h3, h4, h5, if_true, Bool.false_eq_true, if_false] at h <;>
+    · cases h3 : m.xSender.isEmpty <;> cases h5 : ix.addr utf8 m.xSender <;>
+        simp only [h3, h5, if_true, Bool.false_eq_true, if_false] at h <;>
         first
           | (cases h; done)
           | (cases h; simp at hx; done)
@@ -1909,5 +1897,139 @@ theorem C18_diagnostic_text_is_one_line (utf8 : Bool) (s : Reply) :
 
 example : oneLine [97, 13, 98, 13, 13, 10, 99, 10, 13, 0, 9, 127, 233] =
     [97, 32, 98, 32, 32, 32, 99, 32, 32, 32, 9, 32, 233] := by decide
+
+/-! ## the client's HELO name: `Received-From-MTA` (round 10)
+
+Follows the fix "a client HELO name that cannot be converted (malformed A-label) made the queue drop
+the failure report": the optional field is LEFT OUT when `dns.SelectIDNA` fails on the name
+(`Dsn.rcvdField`); before, `GenerateDSN` failed and the sender never learnt of the failure. -/
+
+theorem mtaGroup_receivedFrom (ix : Idna) (utf8 : Bool) (m : MtaInfo) (g : MtaGroup)
+    (h : mtaGroup ix utf8 m = .ok g) : g.receivedFrom = rcvdField ix utf8 m.receivedFromMTA := by
+  unfold mtaGroup at h
+  cases h0 : m.reportingMTA.isEmpty <;> simp only [h0, if_true, Bool.false_eq_true, if_false] at h
+  · cases h1 : ix.dom utf8 m.reportingMTA <;> simp only [h1] at h
+    · cases h
+    · cases h3 : m.xSender.isEmpty <;> cases h5 : ix.addr utf8 m.xSender <;>
+        simp only [h3, h5, if_true, Bool.false_eq_true, if_false] at h <;>
+        first
+          | (cases h; done)
+          | (cases h; rfl)
+  · cases h
+
+/-- The name of the client reaches `ReportingMTAInfo.WriteTo` in one place only. -/
+theorem mtaGroup_client_name (ix : Idna) (utf8 : Bool) (m : MtaInfo) (name : Str) :
+    mtaGroup ix utf8 { m with receivedFromMTA := name } =
+      (mtaGroup ix utf8 m).map (fun g => { g with receivedFrom := rcvdField ix utf8 name }) := by
+  unfold mtaGroup
+  cases h0 : m.reportingMTA.isEmpty <;> simp only [h0, if_true, Bool.false_eq_true, if_false]
+  · cases h1 : ix.dom utf8 m.reportingMTA <;> simp only [h1]
+    · rfl
+    · cases h3 : m.xSender.isEmpty <;> cases h5 : ix.addr utf8 m.xSender <;>
+        simp only [h3, h5, if_true, Bool.false_eq_true, if_false] <;> rfl
+  · rfl
+
+/-- **The client's name decides its own field and nothing else**: `GenerateDSN` with another
+HELO name fails or succeeds alike, and a report differs in `Received-From-MTA` only. -/
+theorem C18_client_name_decides_only_its_own_field (ix : Idna) (utf8 : Bool) (env : Envelope)
+    (mta : MtaInfo) (rs : List RcptInfo) (h : Hdr) (name : Str) :
+    generate ix utf8 env { mta with receivedFromMTA := name } rs h =
+      (generate ix utf8 env mta rs h).map
+        (fun rep => { rep with mta := { rep.mta with receivedFrom := rcvdField ix utf8 name } }) := by
+  unfold generate
+  rw [mtaGroup_client_name]
+  cases hm : mtaGroup ix utf8 mta with
+  | error e => rfl
+  | ok mg => cases hr : rcptGroups ix utf8 rs <;> rfl
+
+/-- **No HELO name suppresses the report** (`GenerateDSN` level): whether a report can be generated
+does not depend on the client's name — convertible, inconvertible or absent. -/
+theorem C18_client_name_never_suppresses_generation (ix : Idna) (utf8 : Bool) (env : Envelope)
+    (mta : MtaInfo) (rs : List RcptInfo) (h : Hdr) (name : Str) :
+    (∃ rep, generate ix utf8 env { mta with receivedFromMTA := name } rs h = .ok rep) ↔
+    (∃ rep, generate ix utf8 env mta rs h = .ok rep) := by
+  rw [C18_client_name_decides_only_its_own_field]
+  cases hg : generate ix utf8 env mta rs h with
+  | error e => simp [Except.map]
+  | ok rep => simp [Except.map]
+
+/-- **`Received-From-MTA` is present iff the client gave a name that converts**, and then it is the
+converted name. -/
+theorem C18_received_from_present_iff_convertible (ix : Idna) (utf8 : Bool) (env : Envelope)
+    (mta : MtaInfo) (rs : List RcptInfo) (h : Hdr) (rep : Report)
+    (hg : generate ix utf8 env mta rs h = .ok rep) (d : Str) :
+    rep.mta.receivedFrom = some d ↔
+      (mta.receivedFromMTA ≠ [] ∧ ix.dom utf8 mta.receivedFromMTA = some d) := by
+  obtain ⟨_, _, _, _, _, _, _, h8, _⟩ := generate_ok _ _ _ _ _ _ _ hg
+  rw [mtaGroup_receivedFrom ix utf8 mta rep.mta h8]
+  unfold rcvdField
+  cases hx : mta.receivedFromMTA with
+  | nil => simp
+  | cons a t => simp
+
+/-- …in particular: a name that cannot be converted is never shown. -/
+theorem C18_inconvertible_client_name_left_out (ix : Idna) (utf8 : Bool) (env : Envelope)
+    (mta : MtaInfo) (rs : List RcptInfo) (h : Hdr) (rep : Report)
+    (hg : generate ix utf8 env mta rs h = .ok rep)
+    (hbad : ix.dom utf8 mta.receivedFromMTA = none) : rep.mta.receivedFrom = none := by
+  cases hr : rep.mta.receivedFrom with
+  | none => rfl
+  | some d =>
+    have := (C18_received_from_present_iff_convertible ix utf8 env mta rs h rep hg d).mp hr
+    rw [hbad] at this
+    exact absurd this.2 (by simp)
+
+/-- Queue level: every report of an attempt shows the HELO name of the connection the message
+came in on iff it converts (a later attempt, read back from the spool, knows no connection:
+`attempt` clears `rcvdFrom`). -/
+theorem C18_queue_report_received_from
+    (cfg : Cfg) (maxTries : Nat) (now : Addr → Option Err) (failAt : Option Stage) (q : QMeta)
+    (hnd : q.to.Nodup) (rep : Report)
+    (hrep : rep ∈ reportsOf (bounces (attempt cfg maxTries now failAt q).2)) :
+    rep.mta.receivedFrom = rcvdField cfg.idna q.msg.utf8 q.msg.rcvdFrom := by
+  obtain ⟨_, _, _, infos, _, hg⟩ := report_core cfg maxTries now failAt q hnd rep hrep
+  obtain ⟨_, _, _, _, _, _, _, h8, _⟩ := generate_ok _ _ _ _ _ _ _ hg
+  exact mtaGroup_receivedFrom _ _ _ _ h8
+
+/-- **An inconvertible client name never suppresses the report** (queue level): with a bounce
+pipeline, a non-null sender, a non-empty failed set and presentable data — NO condition on the
+HELO name — the attempt hands a report to the bounce pipeline, whatever stage of the hand-over
+fails; when the name cannot be converted the report simply has no `Received-From-MTA`. -/
+theorem C18_inconvertible_client_name_never_suppresses_report
+    (cfg : Cfg) (maxTries : Nat) (now : Addr → Option Err) (failAt : Option Stage) (q : QMeta)
+    (hnd : q.to.Nodup) (hp : cfg.pipeline = true) (hs : q.msg.originalFrom ≠ 0)
+    (hf : failedNow maxTries now q ≠ [])
+    (hpres : Presentable cfg q.msg (failedNow maxTries now q) now)
+    (hbad : cfg.idna.dom q.msg.utf8 q.msg.rcvdFrom = none) :
+    ∃ rep, bounces (attempt cfg maxTries now failAt q).2 = handOver (metaNow now q) rep failAt ∧
+      rep.mta.receivedFrom = none := by
+  obtain ⟨rep, hg, h⟩ := report_generated_core cfg maxTries now failAt q hnd hp hs hf hpres
+  exact ⟨rep, h, C18_inconvertible_client_name_left_out _ _ _ _ _ _ rep hg hbad⟩
+
+-- non-vacuity: the client of `exQ` called itself [104]; a library that cannot convert that name
+/-- `cexCfg` with a conversion library that fails on the host name `[104]`. -/
+def badNameCfg : Cfg :=
+  { cexCfg with idna := ⟨fun _ s => some s, fun _ s => if s = [104] then none else some s⟩ }
+
+example : badNameCfg.idna.dom exQ.msg.utf8 exQ.msg.rcvdFrom = none := by decide
+example : exQ.msg.rcvdFrom ≠ [] := by decide
+example : Presentable badNameCfg exQ.msg (failedNow 1 exNow exQ) exNow := by
+  refine ⟨by decide, by decide, by decide, ?_⟩
+  intro r hr e he
+  have hr' : r = 2 ∨ r = 4 := by
+    have : failedNow 1 exNow exQ = [2, 4] := by decide
+    rw [this] at hr; simpa using hr
+  rcases hr' with rfl | rfl
+  · have : e = .smtp 550 ⟨5, 1, 1⟩ [110, 111] := by simp [exNow] at he; exact he.symm
+    subst this; decide
+  · have : e = .withTemp true .plain := by simp [exNow] at he; exact he.symm
+    subst this; decide
+-- the same report as with a convertible name (recipients 1 and 4), only the field is gone
+example : (reportsOf (bounces (attempt badNameCfg 1 exNow (some .body) exQ).2)).map
+    (fun rep => (rep.rcpts.map (·.addr), rep.mta.receivedFrom)) = [([[1], [4]], none)] := by decide
+example : (reportsOf (bounces (attempt cexCfg 1 exNow (some .body) exQ).2)).map
+    (fun rep => (rep.rcpts.map (·.addr), rep.mta.receivedFrom)) = [([[1], [4]], some [104])] := by decide
+example : rcvdField badNameCfg.idna false [104] = none ∧ rcvdField badNameCfg.idna false [105] = some [105] ∧
+    rcvdField badNameCfg.idna false [] = none := by decide
 
 end MaddyVerif.C18
